@@ -15,6 +15,7 @@ import Proofs.Sched
 import Proofs.SchedTrans
 import Martian.SchedProgress
 import Proofs.SchedProgress
+import Proofs.SchedFail
 
 namespace Props.C06
 open Martian.Sched
@@ -161,20 +162,69 @@ theorem failed_fork_unfinished {s : State} {p f : Nat} (hf : f ∈ s.forksOf p)
 
 /-- `independent_unaffected` (progress half; the guard half is below): in ANY reachable
 state — whatever has failed elsewhere in the pipestance — a node whose own objects carry
-no failure marker, whose prenodes are finished and whose cached state is current is either
-finished or can take a step: some quiet event (stub/fork `_complete`, chunk definition, job
-submission, start, end, journal read) of the scheduler/job alphabet is enabled and lowers
-the progress measure.  Failures block exactly the downstream of the failed call. -/
+no failure marker and whose own submitted jobs are alive, whose prenodes are finished and
+whose cached state is current is either finished or can take a step OF ITS OWN: some event `e`
+of the scheduler/job/journal alphabet with `e.node = some n` (stub/fork `_complete`, chunk
+definition, job submission, start, end, journal read of an object of `n`) is enabled and
+lowers the progress measure.  (One state, one step: that the node then runs to completion
+next to the failure needs fairness towards that node and is not stated.) -/
 theorem independent_node_can_progress {g : List NodeInfo} {s : State} {n : Nat} (hr : Reach g s)
     (hn : n < s.nodes.length) (hph : s.phase = .normal)
     (hfresh : s.cachedOf n = nodeState s n) (hpre : ∀ p ∈ s.pre n, nodeDone s p = true)
     (hclean : ∀ f r, (s.m ⟨n, f, r⟩).disk.has .errors = false ∧
-      (s.m ⟨n, f, r⟩).disk.has .assert = false) :
-    nodeDone s n = true ∨ ∃ e, Progress s e := by
+      (s.m ⟨n, f, r⟩).disk.has .assert = false)
+    (halive : AliveNode s n) :
+    nodeDone s n = true ∨ ∃ e, Progress s e ∧ e.node = some n := by
   cases hd : nodeDone s n
   · exact Or.inr (node_progress (reach_objsInv hr) (reach_roleInv hr) (reach_launchInv hr) hn hph
-      hfresh hpre hclean hd)
+      hfresh hpre hclean halive hd)
   · exact Or.inl rfl
+
+/-- `failed_job_never_reports_success_partial` (the headline "the pipestance ends failed and never
+reports success", lifted over histories): let job object `o` of stage fork (n, f) be SEEN failed
+while the fork is unfinished, where `o` is the join; or a chunk the split defined, the join not
+having been submitted; or the split, no chunk and no join having been submitted (`FailedBlock`:
+these are the situations in which a job's own `_errors`/`_assert`, a silent death or mrp's
+`_errors` can arise, see the guards of `jobend`/`silentfail`/`mrpWriteOk`).  Then along EVERY
+continuation (any events: interruptions, other failures, restarts, resets of other objects,
+fork-structure events) in which `o` itself is not reset, the fork never becomes complete or
+disabled — so its node is never Complete/Disabled while the fork is listed, and the
+pipestance is never `Finished`.
+PARTIAL: the precondition is not derived from reachability (a theorem "every reachable state
+with a failed job object of an unfinished fork satisfies `FailedBlock`" would need the
+completion chain under failures); fork-level failure markers are covered by
+`failed_fork_sticks`; pipelines have no job objects.  The three histories by which the
+previous model reached `Finished` with a failed object (a `silentfail` after completion,
+`_errors` then `_complete` of one job, a failed chunk forgotten by redefining the chunk count
+at re-attach) are rejected now: `late_silentfail_rejected`, `errors_then_complete_rejected`,
+`forget_failed_chunk_rejected`. -/
+theorem failed_job_never_reports_success_partial {g : List NodeInfo} {s0 : State}
+    {σ : Nat → State} {es : Nat → Ev} {n f : Nat} {o : Obj} (hr : Reach g s0)
+    (hrun : Run s0 σ es) (hnr : ∀ i, es i ≠ .reset o) (h0 : FailedBlock s0 n f o) :
+    ∀ j, (σ j).st o = some .failed ∧ fmDone (σ j) n f = false ∧
+      (n < (σ j).nodes.length → f ∈ (σ j).forksOf n → nodeDone (σ j) n = false ∧ ¬ Finished (σ j)) := by
+  have key : ∀ j, Reach g (σ j) ∧ FailedBlock (σ j) n f o := by
+    intro j
+    induction j with
+    | zero => rw [hrun.start]; exact ⟨hr, h0⟩
+    | succ j ih =>
+      rw [hrun.next]
+      exact ⟨Reach.step ih.1 (hrun.en j), failedBlock_step ih.1 (hrun.en j) (hnr j) ih.2⟩
+  intro j
+  obtain ⟨_, hb⟩ := key j
+  refine ⟨hb.failed, hb.unfinished, fun hn hf => ?_⟩
+  have hnd : nodeDone (σ j) n = false := by
+    cases hd : nodeDone (σ j) n
+    · rfl
+    · have := nodeDone_iff.mp hd f hf
+      rw [hb.unfinished] at this; cases this
+  exact ⟨hnd, fun hfin => by rw [(hfin.2 n hn).1] at hnd; cases hnd⟩
+
+/-- one step of it, in any reachable state -/
+theorem failed_blocks_fork {g : List NodeInfo} {s : State} {e : Ev} {n f : Nat} {o : Obj}
+    (hr : Reach g s) (hen : enabled s e = true) (hne : e ≠ .reset o) (h : FailedBlock s n f o) :
+    FailedBlock (apply s e) n f o :=
+  failedBlock_step hr hen hne h
 
 /-- `error_names_stage`: what `Node.getFatalError` (model `fatalError`: the first metadata in
 `collectMetadatas` order whose state is failed; `_errors` before `_assert`) reports is a
